@@ -940,6 +940,12 @@ fn match_ty<I: Interner>(
         | TyKind::Tuple(0, _) => {
             // These have no substitutions, so they are trivially WF
             builder.push_fact(WellFormed::Ty(ty.clone()));
+
+            // ... and, for the orphan rules, they mention no type parameter
+            // (foreign types are declared by some crate, not by the language)
+            if !matches!(ty.kind(interner), TyKind::Foreign(_)) {
+                builder.push_fact(DomainGoal::IsFullyVisible(ty.clone()));
+            }
         }
         TyKind::Raw(mutbl, _) => {
             // forall<T> WF(*const T) :- WF(T);
@@ -1047,6 +1053,15 @@ fn match_ty<I: Interner>(
                 );
 
                 let tuple_ty = TyKind::Tuple(*len, substs.clone()).intern(interner);
+
+                // IsFullyVisible((T0, ..., Tn)) :- IsFullyVisible(T0), ..., IsFullyVisible(Tn)
+                builder.push_clause(
+                    DomainGoal::IsFullyVisible(tuple_ty.clone()),
+                    substs.iter(interner).map(|subst| {
+                        DomainGoal::IsFullyVisible(subst.assert_ty_ref(interner).clone())
+                    }),
+                );
+
                 let sized = builder.db.well_known_trait_id(WellKnownTrait::Sized);
                 builder.push_clause(
                     WellFormed::Ty(tuple_ty),
